@@ -201,6 +201,16 @@ class _AllAnyOfDisplay(ast.NodeTransformer):
             keywords=[])
         return node
 
+    def visit_List(self, node):
+        # [*xs] is list(xs)
+        self.generic_visit(node)
+        if isinstance(node.ctx, ast.Load) and len(node.elts) == 1 and \
+                isinstance(node.elts[0], ast.Starred):
+            return ast.copy_location(ast.Call(
+                func=ast.Name(id='list', ctx=ast.Load()),
+                args=[node.elts[0].value], keywords=[]), node)
+        return node
+
     def visit_For(self, node):
         node = self._registry_items(node)
         # the search loop  for x in L: if x == v: break / else: MISS
